@@ -136,6 +136,98 @@ def nested_bitfield_sweep(tier="quick", seed=0):
                          "bound": "2 layouts x offsets {0, 4} x 6 bit patterns"}]}
 
 
+_REF_SCRIPT = r'''
+from __future__ import annotations
+import itertools, json
+from cohdl import std, Bit, BitVector, Unsigned, Signed, Signal
+
+KINDS = {"BitVector": BitVector, "Unsigned": Unsigned, "Signed": Signed}
+bad, n, accepted = [], 0, 0
+for (tn, T), tw, (an, A), aw in itertools.product(KINDS.items(), range(1, 5), KINDS.items(), range(1, 5)):
+    n += 1
+    arg = Signal[A[aw]]()
+    try:
+        r = std.Ref[T[tw]](arg)
+    except Exception as e:
+        if tw == aw:
+            bad.append(["ref-rejects-matching-width", f"std.Ref[{tn}[{tw}]](Signal[{an}[{aw}]]) raised {type(e).__name__}"])
+        continue
+    accepted += 1
+    if aw != tw:
+        bad.append(["ref-accepts-other-width", f"std.Ref[{tn}[{tw}]](Signal[{an}[{aw}]]) is a {r.width} bit object: a reference does not convert, count_bits({tn}[{tw}]) == {tw}"])
+    elif r.width != tw or not issubclass(r.type, T) or r._root is not arg:
+        bad.append(["ref-view", f"std.Ref[{tn}[{tw}]](Signal[{an}[{aw}]]) -> {r!r}"])
+
+
+class Inner(std.Record):
+    a: Bit
+    b: BitVector[3]
+
+
+for aw in range(1, 6):
+    n += 1
+    try:
+        rec = std.Ref[Inner](a=Signal[Bit](), b=Signal[Unsigned[aw]]())
+        bits = std.to_bits(rec)
+    except Exception as e:
+        if aw == 3:
+            bad.append(["ref-record-rejects-matching-width", f"b: Unsigned[{aw}] raised {type(e).__name__}"])
+        continue
+    accepted += 1
+    if bits.width != std.count_bits(Inner):
+        bad.append(["ref-record-bit-count", f"std.Ref[Inner](a=bit, b=Unsigned[{aw}]): to_bits has {bits.width} bits, count_bits(Inner) == {std.count_bits(Inner)}"])
+# std.Serialized[T](other std.Serialized[T]): the copy holds the same bits, as a BitVector of count_bits(T) bits
+for T, x in ((Bit, Bit(1)), (Unsigned[4], Unsigned[4](5)), (Signed[3], Signed[3](-2)), (Inner, Inner(a=Bit(1), b=BitVector[3]("010")))):
+    n += 1
+    s = std.Serialized[T](x)
+    try:
+        c = std.Serialized[T](s)
+        cb = c.bits()
+    except Exception as e:
+        bad.append(["serialized-copy", f"std.Serialized[{T.__name__}](std.Serialized[{T.__name__}](x)) raised {type(e).__name__}: {str(e)[:60]}"])
+        continue
+    accepted += 1
+    if type(std.base_type(cb)) is type and not (std.base_type(cb) is BitVector[std.count_bits(T)] and str(cb) == str(s.bits())):
+        bad.append(["serialized-copy", f"std.Serialized[{T.__name__}] copy holds {cb!r}, the original {s.bits()!r}"])
+first = {}
+for b in bad:
+    first.setdefault(b[0], b)
+print("RESULT" + json.dumps({"evaluations": n, "accepted": accepted, "bad": list(first.values())}))
+'''
+
+
+def ref_width_sweep(tier="quick", seed=0):
+    """BOUNDED: std.Ref[K[w]](vector object) for all pairs of vector kinds and widths 1..4, and a record built with std.Ref from
+    members of widths 1..5: a reference never changes the number of bits -- `to_bits(x)` has exactly `count_bits(T)` bits"""
+    import json
+
+    from contracts.c06_extra import _run_design
+
+    rc, text = _run_design(_REF_SCRIPT)
+    if "RESULT" not in text:
+        return {"problems": [f"ref_width_sweep: the script failed: {text[-300:]}"]}
+    data = json.loads(text[text.index("RESULT") + 6:].splitlines()[0])
+    if data["accepted"] == 0:
+        return {"problems": ["ref_width_sweep: every reference was rejected: nothing was checked"]}
+    fails = {}
+    for b in data["bad"]:
+        fails.setdefault(b[0], f"{b[0]}: {b[1]}")
+    violations = []
+    for key, what in sorted(fails.items()):
+        oid = f"C17/ref-width-sweep[{key}]#bounded"
+        violations.append({"kind": "custom", "qual": "<std.Ref of vector types>", "case": key, "oid": oid, "check": "ref_width_sweep", "key": key, "assignment": {"deviation": key}, "solver": {"what": what}, "reproduced": True,
+                           "replay_payload": {"property": "C17", "custom": "contracts.c17_extra.replay_ref_width", "key": key, "obligation": oid, "verifier_output": what}})
+    return {"evaluations": data["evaluations"], "distinct": data["evaluations"], "violations": violations, "samples": [{"evaluations": data["evaluations"], "accepted": data["accepted"]}],
+            "bounded": [{"function": "cohdl.std._core_utility:_Ref.__call__ (vector types), std.Record.__init__ through std.Ref", "case": "ref_width_sweep", "evaluations": data["evaluations"], "exhaustive_within_bound": True,
+                         "bound": "3 vector kinds x widths 1..4 for the requested type and for the argument; one record with a 3 bit member built from members of widths 1..5"}]}
+
+
+def replay_ref_width(payload):
+    r = ref_width_sweep()
+    hit = [v for v in r.get("violations", []) if v["key"] == payload["key"]]
+    return {"reproduced": bool(hit), "detail": hit[0]["solver"]["what"] if hit else "references keep the number of bits of the requested type"}
+
+
 def replay_nested_bitfield(payload):
     r = nested_bitfield_sweep()
     hit = [v for v in r.get("violations", []) if v["key"] == payload["key"]]
